@@ -1287,7 +1287,7 @@ class Assembler:
     def _assemble_jr(self, address, op1, op2=None):
         if op2 is None:
             return (24, self._address_offset(address, op1))
-        return (32 + 8 * _condition_index(op1), self._address_offset(address, op2))
+        return (32 + 8 * ('NZ', 'Z', 'NC', 'C').index(op1), self._address_offset(address, op2))
 
     def _assemble_ld(self, address, op1, op2):
         if op1 in REG:
